@@ -10,7 +10,8 @@ Inductive uq :=
 | QSum (lo hi : N)             (* checksum over all valid scalars in [lo, hi) *)
 | QProg (k : sel) (cs : list N)  (* an Aelys program observing the string utf8 cs; k = loop opcode selected *)
 | QNat (cs ps : list N)          (* an Aelys program calling the character natives on utf8 cs, pad string utf8 ps *)
-| QRecycle (cs : list N).       (* char_len / for-each / indexing observed three times with other one-character strings produced (and collected) in between *)
+| QRecycle (cs : list N)
+| QFirst (cs : list N).         (* functions whose for-each / range loop body ends in `return`, on utf8 cs and on the empty string *)       (* char_len / for-each / indexing observed three times with other one-character strings produced (and collected) in between *)
 
 Definition zn (n : nat) : Z := Z.of_nat n.
 Definition zs (l : list N) : list Z := map Z.of_N l.
@@ -103,6 +104,16 @@ Definition recycle_round (cs : list N) : list Z :=
   [zn (char_len s); zn (length its)] ++ concat (map framed its) ++ [zn (length idx)] ++ concat (map framed idx).
 Definition recycle_obs (cs : list N) : list Z := recycle_round cs ++ recycle_round cs ++ recycle_round cs.
 
+(* first_item / idx_first return the first item or the marker "<none>"; yields_nothing 1 iff no item; count_after the
+   number of items: the code after a loop runs exactly when the loop runs out of items *)
+Definition none_marker : list N := [60; 110; 111; 110; 101; 62]%N.
+Definition first_obs (cs : list N) : list Z :=
+  let s := utf8 cs in
+  let first := match items (for_each s) with it :: _ => it | [] => none_marker end in
+  let ifirst := match load_char s 0 with LoadOk it => if Nat.eqb (char_len s) 0 then none_marker else it | LoadIndexOutOfBounds => none_marker end in
+  framed first ++ framed ifirst ++ framed none_marker
+  ++ [(if Nat.eqb (length (items (for_each s))) 0 then 1 else 0); 1; zn (length (items (for_each s))); 0].
+
 Definition uobs (q : uq) : list Z :=
   match q with
   | QEnc c => enc_obs c
@@ -111,4 +122,5 @@ Definition uobs (q : uq) : list Z :=
   | QProg k cs => prog_obs k cs
   | QNat cs ps => nat_obs cs ps
   | QRecycle cs => recycle_obs cs
+  | QFirst cs => first_obs cs
   end.
